@@ -179,6 +179,32 @@ def edge_pred(mod):
                     bad.append("pairing with the identity in a non-canonical representation (e.g. double(Z1), multiply(Z1, 6)) is not the unit")
             except Exception as e:  # noqa: BLE001
                 bad.append(f"pairing with a non-canonical identity raised {type(e).__name__}")
+    # HISTORY: the public, deliberately unvalidated building blocks (twist, cast_point_to_fq12, miller_loop) are first run on an
+    # off-curve point; pairing() must still refuse that very point afterwards (a per-point memo filled by miller_loop must not
+    # count as "already validated")
+    M = importlib.import_module(pyexec.MODS[mod])
+    PM = pyexec.pairing_mod(mod)
+    for who in ("Q", "P"):
+        Qb, Pb = M.G2, M.G1
+        if who == "Q":
+            Qb = (M.G2[0], M.G2[1] + M.G2[1].one()) + tuple(M.G2[2:])
+        else:
+            Pb = (M.G1[0], M.G1[1] + M.G1[1].one()) + tuple(M.G1[2:])
+        for call in (lambda: PM.miller_loop(M.twist(Qb), PM.cast_point_to_fq12(Pb)),
+                     lambda: PM.miller_loop(M.twist(Qb), PM.cast_point_to_fq12(Pb), False),
+                     lambda: PM.miller_loop(Qb, Pb), lambda: PM.miller_loop(Qb, Pb, False)):
+            try:
+                call()
+            except Exception:  # noqa: BLE001  — whatever the unvalidated call does with an off-curve point is its own business
+                pass
+        for fe in (True, False):
+            try:
+                PM.pairing(Qb, Pb, fe) if mod.startswith("Opt") else PM.pairing(Qb, Pb)
+                bad.append(f"off-curve {who} was paired after miller_loop had been run on it directly (final_exponentiate={fe})")
+            except ValueError:
+                pass
+            except Exception as e:  # noqa: BLE001
+                bad.append(f"off-curve {who} after a direct miller_loop: {type(e).__name__} instead of ValueError")
     return (not bad, f"{mod} pairing edge cases: {bad}")
 
 
